@@ -102,8 +102,8 @@ Proof.
       destruct Hfub as (A & B & C). split; auto.
   - (* FU *)
     destruct (p_iter p); [|destruct (p_new p)].
-    + pose proof (@fu_from_list_spec P HP false (mk_children inits) w Hw) as H.
-      destruct (fu_from_list P false (mk_children inits) w) as [u w1]. destruct H as (A & B & _). split; auto.
+    + pose proof (@fu_from_list_spec P HP false (lazy_hint p (mk_children inits)) (mk_children inits) w Hw) as H.
+      destruct (fu_from_list P false (lazy_hint p (mk_children inits)) (mk_children inits) w) as [u w1]. destruct H as (A & B & _). split; auto.
     + split; simpl; auto. apply fu_empty_ok.
     + pose proof (@fu_with_capacity_spec false (p_cap p) w Hw) as H.
       destruct (fu_with_capacity (p_cap p) w) as [u w1]. destruct H as (A & B & _). split; auto.
@@ -112,8 +112,8 @@ Proof.
     destruct Hfl. split; auto.
   - (* MU *)
     destruct (p_iter p); [|destruct (p_new p)].
-    + pose proof (@fu_from_list_spec P HP true (mk_children inits) w Hw) as H.
-      destruct (fu_from_list P true (mk_children inits) w) as [u w1]. destruct H as (A & B & _). split; auto.
+    + pose proof (@fu_from_list_spec P HP true (lazy_hint p (mk_children inits)) (mk_children inits) w Hw) as H.
+      destruct (fu_from_list P true (lazy_hint p (mk_children inits)) (mk_children inits) w) as [u w1]. destruct H as (A & B & _). split; auto.
     + split; simpl; auto. apply fu_empty_ok.
     + pose proof (@fu_with_capacity_spec true (p_cap p) w Hw) as H.
       destruct (fu_with_capacity (p_cap p) w) as [u w1]. destruct H as (A & B & _). split; auto.
@@ -128,8 +128,8 @@ Proof.
       destruct Hfob as (A & B & C). split; auto.
   - (* FO *)
     destruct (p_iter p); [|destruct (p_new p)].
-    + pose proof (@fo_from_list_spec P HP (mk_children inits) w Hw) as H.
-      destruct (fo_from_list P (mk_children inits) w) as [q w1]. destruct H as (A & B).
+    + pose proof (@fo_from_list_spec P HP (lazy_hint p (mk_children inits)) (mk_children inits) w Hw) as H.
+      destruct (fo_from_list P (lazy_hint p (mk_children inits)) (mk_children inits) w) as [q w1]. destruct H as (A & B).
       assert (Hq : cinv (CFo q) w1) by (split; simpl; auto).
       destruct (mk_children inits); [|exact Hq]. destruct (p_seed p); exact Hq.
     + split; simpl; auto. apply fu_empty_ok.
